@@ -1479,3 +1479,288 @@ def r_need_more_tokens_pure(ctx, repo):
     else:
         rule.ok(f.loc(), 'need_more_tokens reads no input')
     return rule
+
+
+# ------------------------------------------------------------------------------------- R-CHECKED-CLASSES-UNRELATED
+def r_checked_classes_unrelated(ctx, repo):
+    rule = ctx.rule('R-CHECKED-CLASSES-UNRELATED', 'the token classes the parser tells apart with check_token(...) / isinstance are pairwise '
+                                                   'unrelated by inheritance: a test for one kind of token never also accepts another kind')
+    tokens = repo.modules['tokens']
+    names = set(tokens.classes)
+    used = set()
+    for mn in ('parser', 'scanner'):
+        for f in _all_funcs(repo, [mn]):
+            for c in A.func_calls(f.node):
+                if isinstance(c.func, ast.Attribute) and c.func.attr == 'check_token':
+                    used |= {a.id for a in c.args if isinstance(a, ast.Name) and a.id in names}
+                elif isinstance(c.func, ast.Name) and c.func.id == 'isinstance' and len(c.args) == 2:
+                    k = c.args[1]
+                    for a in (k.elts if isinstance(k, ast.Tuple) else [k]):
+                        if isinstance(a, ast.Name) and a.id in names:
+                            used.add(a.id)
+    if len(used) < 12:
+        raise AnalysisError('only %d token classes are tested in the parser' % len(used))
+    bad = []
+    for a in sorted(used):
+        for b in sorted(used):
+            if a < b:
+                ka, kb = tokens.classes[a], tokens.classes[b]
+                if ka.is_subclass_of(kb) or kb.is_subclass_of(ka):
+                    bad.append((a, b))
+    if bad:
+        a, b = bad[0]
+        sub = a if tokens.classes[a].is_subclass_of(tokens.classes[b]) else b
+        sup = b if sub == a else a
+        k = tokens.classes[sub]
+        rule.fail('tokens|%s<%s' % (sub, sup), tokens.rel, k.node.lineno, 'tokens.%s' % sub, 'class %s(%s)' % (sub, sup),
+                  '%s is a subclass of %s and both are told apart by the parser: check_token(%s) now also accepts a %s token, so a '
+                  'token sequence outside the documented grammar is parsed (and the wrong branch handles it)' % (sub, sup, sup, sub))
+    else:
+        rule.ok(tokens.rel, '%d token classes tested by the parser, pairwise unrelated' % len(used))
+    return rule
+
+
+# ------------------------------------------------------------------------------------------ R-ERROR-MARK-ORDER
+def r_error_mark_order(ctx, repo):
+    rule = ctx.rule('R-ERROR-MARK-ORDER', 'in a ParserError built from two marks held in locals, the context mark is never taken from a '
+                                          'later token than the problem mark, on any path through the function')
+    P = repo.cls('parser.Parser')
+    n = 0
+    for f in P.methods.values():
+        raises = [r for r in walk_function(f.node) if isinstance(r, ast.Raise) and isinstance(r.exc, ast.Call)
+                  and norm(r.exc.func) == 'ParserError' and len(r.exc.args) == 4
+                  and isinstance(r.exc.args[1], ast.Name) and isinstance(r.exc.args[3], ast.Name)]
+        if not raises:
+            continue
+        cfg = CFG(f.node)
+        # abstract run: count of tokens consumed so far; a mark local holds (token ordinal, 0 start / 1 end)
+        for r in raises:
+            site = [x for x in cfg.nodes if x.ast is r or x.stmt is r]
+            if not site:
+                continue
+            cm, pm = r.exc.args[1].id, r.exc.args[3].id
+            worst = {'bad': None}
+            seen = set()
+
+            def tok_of(e, env):
+                # token.start_mark / token.end_mark of a local token variable
+                if isinstance(e, ast.Attribute) and e.attr in ('start_mark', 'end_mark') and isinstance(e.value, ast.Name) \
+                        and ('tok', e.value.id) in env:
+                    return (env[('tok', e.value.id)], 0 if e.attr == 'start_mark' else 1)
+                if isinstance(e, ast.Name) and ('mark', e.id) in env:
+                    return env[('mark', e.id)]
+                return None
+
+            stack = [(cfg.entry, 0, frozenset())]
+            steps = 0
+            while stack and steps < 20000:
+                node, cnt, fe = stack.pop()
+                steps += 1
+                key = (node, cnt, fe)
+                if key in seen:
+                    continue
+                seen.add(key)
+                env = dict(fe)
+                if node in site:
+                    a, b = env.get(('mark', cm)), env.get(('mark', pm))
+                    if a is not None and b is not None and a > b:
+                        worst['bad'] = (a, b)
+                    continue
+                a_ = node.ast
+                if node.kind == 'stmt' and isinstance(a_, ast.Assign):
+                    v = a_.value
+                    call = v if isinstance(v, ast.Call) and isinstance(v.func, ast.Attribute) else None
+                    if call is not None and call.func.attr in ('get_token', 'peek_token'):
+                        for t in a_.targets:
+                            if isinstance(t, ast.Name):
+                                env[('tok', t.id)] = cnt
+                        if call.func.attr == 'get_token':
+                            cnt += 1
+                    else:
+                        val = tok_of(v, env)
+                        for t in a_.targets:
+                            for nm in ([t] if isinstance(t, ast.Name) else []):
+                                if val is not None:
+                                    env[('mark', nm.id)] = val
+                                else:
+                                    env.pop(('mark', nm.id), None)
+                                    env.pop(('tok', nm.id), None)
+                elif node.ast is not None and cnt < 6:
+                    for x in own_exprs(node):
+                        if isinstance(x, ast.Call) and isinstance(x.func, ast.Attribute) and x.func.attr == 'get_token':
+                            cnt += 1
+                for (m2, lab) in cfg.succ[node]:
+                    if lab != 'exc':
+                        stack.append((m2, cnt, frozenset(env.items())))
+            n += 1
+            if worst['bad'] is not None:
+                rule.fail('%s|context-after-problem' % f.qualname, f.module.rel, r.lineno, f.qualname, A.anon_text(r, f.node, 80),
+                          '%s can raise a ParserError whose context mark comes from a later token than its problem mark (a path on '
+                          'which the two locals were taken in that order exists): the error\'s marks move backwards' % f.qualname)
+            else:
+                rule.ok(f.loc(r), 'context mark is not later than the problem mark')
+    if not n:
+        raise AnalysisError('no ParserError with two local marks found')
+    return rule
+
+
+# ------------------------------------------------------------------------------------------ R-TOKEN-VALUE-FORMAT
+def r_token_value_format(ctx, repo):
+    rule = ctx.rule('R-TOKEN-VALUE-FORMAT', 'a token\'s .value is never the bare right operand of a % format: for TAG and DIRECTIVE tokens '
+                                            'the value is a tuple, which % takes for the argument list (TypeError instead of the intended '
+                                            'ParserError)')
+    n = 0
+    for f in _all_funcs(repo, ['parser', 'scanner', 'composer']):
+        toks = set()
+        for s in walk_function(f.node):
+            if isinstance(s, ast.Assign) and isinstance(s.value, ast.Call) and isinstance(s.value.func, ast.Attribute) \
+                    and s.value.func.attr in ('peek_token', 'get_token'):
+                toks |= {t.id for t in s.targets if isinstance(t, ast.Name)}
+        toks |= {p for p in f.params if p in ('token',)}
+        for x in walk_function(f.node):
+            if isinstance(x, ast.BinOp) and isinstance(x.op, ast.Mod) and A.const_str(x.left) is not None:
+                n += 1
+                r = x.right
+                is_tok_value = isinstance(r, ast.Attribute) and r.attr == 'value' and (
+                    (isinstance(r.value, ast.Name) and r.value.id in toks) or (
+                        isinstance(r.value, ast.Call) and isinstance(r.value.func, ast.Attribute)
+                        and r.value.func.attr in ('peek_token', 'get_token')))
+                if is_tok_value:
+                    rule.fail('%s|format' % f.qualname, f.module.rel, x.lineno, f.qualname, A.anon_text(x, f.node, 70),
+                              '%s formats a token\'s value as the bare operand of %%: a TAG token carries (handle, suffix) and a '
+                              'directive token (name, value), so the message construction raises TypeError - a non-YAML exception '
+                              'leaves the parser on malformed input' % f.qualname)
+    rule.instances += 1
+    rule.ok('parser/scanner/composer', '%d %%-formats examined' % n)
+    return rule
+
+
+# ----------------------------------------------------------------------------------------- R-RECURSION-INVENTORY
+CONFIRMED_RECURSION = {
+    # function -> why the recursion ends on every input (incl. graphs with alias cycles)
+    'composer.Composer.compose_node': 'consumes at least one event per call (the event stream is finite)',
+    'composer.Composer.compose_sequence_node': 'part of the compose_node cycle',
+    'composer.Composer.compose_mapping_node': 'part of the compose_node cycle',
+    'constructor.BaseConstructor.construct_object': 'recursive_objects rejects re-entry on the same node',
+    'constructor.BaseConstructor.construct_sequence': 'goes through construct_object',
+    'constructor.BaseConstructor.construct_mapping': 'goes through construct_object',
+    'constructor.BaseConstructor.construct_pairs': 'goes through construct_object',
+    'constructor.SafeConstructor.construct_mapping': 'goes through construct_object / flatten_mapping',
+    'constructor.SafeConstructor.flatten_mapping': 'removes the merge entry before recursing (R-MERGE-CYCLE-CUT)',
+}
+
+
+def r_recursion_inventory(ctx, repo, modules=('composer', 'constructor', 'resolver', 'parser')):
+    rule = ctx.rule('R-RECURSION-INVENTORY', 'every function that can re-enter itself while walking nodes (directly or through other '
+                                             'methods of the read path) either is one of the recursions confirmed to end on cyclic node '
+                                             'graphs, or tests a visited set before it recurses')
+    funcs = {}
+    for f in _all_funcs(repo, modules):
+        funcs[f.qualname] = f
+    byname = {}
+    for q, f in funcs.items():
+        byname.setdefault(f.name, []).append(q)
+    calls = {q: set() for q in funcs}
+    for q, f in funcs.items():
+        for c in A.func_calls(f.node):
+            nm = c.func.attr if isinstance(c.func, ast.Attribute) else c.func.id if isinstance(c.func, ast.Name) else None
+            if nm in byname and nm not in ('__init__',):
+                # dynamic dispatch through the registries is not followed: construct_object is the registered entry
+                targets = set(byname[nm])
+                if isinstance(c.func, ast.Attribute) and isinstance(c.func.value, ast.Call) and norm(c.func.value.func) == 'super':
+                    targets.discard(q)          # super().m() is a different definition of m
+                calls[q] |= targets
+    # functions on a cycle
+    def reach(q):
+        seen, st = set(), list(calls[q])
+        while st:
+            x = st.pop()
+            if x in seen:
+                continue
+            seen.add(x)
+            st.extend(calls.get(x, ()))
+        return seen
+    n = 0
+    for q, f in sorted(funcs.items()):
+        if q not in reach(q):
+            continue
+        n += 1
+        if q in CONFIRMED_RECURSION:
+            rule.ok(f.loc(), '%s: %s' % (f.name, CONFIRMED_RECURSION[q]))
+            continue
+        # a visited-set test dominating every recursive call
+        cfg = CFG(f.node)
+        rec = [nd for nd in cfg.nodes if nd.ast is not None and any(
+            isinstance(x, ast.Call) and ((isinstance(x.func, ast.Attribute) and x.func.attr in byname and
+                                          set(byname[x.func.attr]) & (reach(q) | {q})) or
+                                         (isinstance(x.func, ast.Name) and x.func.id in byname and set(byname[x.func.id]) & (reach(q) | {q})))
+            for x in own_exprs(nd))]
+        guards = [(t, isinstance(t.ast.ops[0], ast.NotIn)) for t in cfg.nodes if t.kind == 'test' and isinstance(t.ast, ast.Compare)
+                  and len(t.ast.ops) == 1 and isinstance(t.ast.ops[0], (ast.In, ast.NotIn))]
+        if rec and guards and all(cfg.guarded(r, edges=guards) for r in rec):
+            rule.ok(f.loc(), '%s recurses only after a membership test (visited set)' % f.name)
+        else:
+            rule.fail('%s|recursion' % q, f.module.rel, f.node.lineno, q, 'def %s' % f.name,
+                      '%s can re-enter itself while walking nodes and is not one of the recursions known to terminate: node graphs '
+                      'contain cycles (an anchored collection that contains an alias to itself), so an unguarded walk ends in '
+                      'RecursionError - not a YAML error' % q)
+    if n < 3:
+        raise AnalysisError('only %d recursive functions found on the read path' % n)
+    return rule
+
+
+# ------------------------------------------------------------------------------------- R-REQUIRED-KEY-BLOCK-ONLY
+def r_required_key_block_only(ctx, repo):
+    rule = ctx.rule('R-REQUIRED-KEY-BLOCK-ONLY', 'a possible simple key is marked required only in the block context (where a token in the '
+                                                 'indentation column must start a key): inside a flow collection no token is ever required '
+                                                 'to be a key')
+    f = _method(repo, 'scanner.Scanner', 'save_possible_simple_key')
+    # the expression that becomes SimpleKey(..., required, ...): second positional argument
+    sk = [c for c in A.func_calls(f.node) if isinstance(c.func, ast.Name) and c.func.id == 'SimpleKey']
+    if not sk:
+        raise AnalysisError('save_possible_simple_key: SimpleKey(...) is not built here')
+    for c in sk:
+        e = c.args[1] if len(c.args) > 1 else next((k.value for k in c.keywords if k.arg == 'required'), None)
+        if e is None:
+            raise AnalysisError('SimpleKey(...) without a `required` argument')
+        if isinstance(e, ast.Name):
+            defs = [s for s in walk_function(f.node) if isinstance(s, ast.Assign) and any(
+                isinstance(t, ast.Name) and t.id == e.id for t in s.targets)]
+            if len(defs) == 1:
+                e = defs[0].value
+        sn = f.params[0]
+        v1 = A.const_truth(e, {'%s.flow_level' % sn: 1})
+        v3 = A.const_truth(e, {'%s.flow_level' % sn: 3})
+        if v1 is False and v3 is False:
+            rule.ok(f.loc(c), 'required is false whenever flow_level is non-zero')
+        else:
+            rule.fail('%s|required-in-flow' % f.qualname, f.module.rel, c.lineno, f.qualname, A.anon_text(e, f.node, 60),
+                      'a simple key can be marked required inside a flow collection: an entry of a multi-line flow sequence that '
+                      'happens to start in the column of the enclosing block collection raises "could not find expected \':\'" '
+                      '(LibYAML loads the document)')
+    return rule
+
+
+# ---------------------------------------------------------------------------------- R-FLOW-SCALAR-FIRST-CHUNK
+def r_flow_scalar_first_chunk(ctx, repo):
+    rule = ctx.rule('R-FLOW-SCALAR-FIRST-CHUNK', 'scan_flow_scalar scans the non-space characters after the opening quote before it first '
+                                                 'looks for the closing quote: an escaped quote at the very start (\'\'\'tis\') is content, not '
+                                                 'the end of the scalar')
+    f = _method(repo, 'scanner.Scanner', 'scan_flow_scalar')
+    cfg = CFG(f.node)
+    chunk = [n for n in cfg.nodes if n.ast is not None and any(
+        isinstance(x, ast.Call) and isinstance(x.func, ast.Attribute) and x.func.attr == 'scan_flow_scalar_non_spaces'
+        for x in own_exprs(n))]
+    loops = [n for n in cfg.nodes if n.kind == 'test' and isinstance(n.stmt, ast.While) and any(
+        isinstance(x, ast.Call) and isinstance(x.func, ast.Attribute) and x.func.attr == 'peek' for x in ast.walk(n.ast))]
+    if not chunk or not loops:
+        raise AnalysisError('scan_flow_scalar: the chunk loop was not found')
+    for l in loops:
+        if cfg.guarded(l, nodes=chunk):
+            rule.ok(f.loc(l.ast), 'the first chunk is scanned before the closing quote is looked for')
+        else:
+            rule.fail('%s|first-chunk' % f.qualname, f.module.rel, l.lineno, f.qualname, A.anon_text(l.ast, f.node, 60),
+                      'scan_flow_scalar tests for the closing quote before any non-space chunk has been scanned: a single-quoted '
+                      'scalar that begins with an escaped quote is closed at its second character (the dumpers write exactly this '
+                      'for a string starting with an apostrophe)')
+    return rule
